@@ -29,6 +29,10 @@ def check(run):
     recs = recs[:2000 if quick else 40000]
     recs += ic.emit(run, 'Inject emission (exhaustive, accepted configurations with sources)', 'Inject_emit_ok.cfg', 0, 0,
                     3000 if quick else 60000, seed_off=9, bfs=True)
+    multi = ic.emit(run, 'Inject emission (exhaustive, several provides per function)', 'Inject_emit_multi.cfg', 0, 0,
+                    1500 if quick else 30000, seed_off=13, bfs=True)
+    run.notes['multi_provide_configurations'] = len(multi)
+    recs += multi
     opts = {'mode': 'C02', 'kwonly': True, 'posonly': False, 'carriers': True, 'static': True}
     hs = [0, 1, 2, 3] if quick else [0, 1, 2, 3, 4, 5, 6, 7]
     res = ic.replay_records(run, recs, opts, hs, run.seed, 'c02')
